@@ -18,7 +18,7 @@ def _h(pkg):
     return (pkg, [pkg + "/zz_verif_c19_test.go", pkg + "/zz_verif_c19_common_test.go"], "c19_" + pkg.replace("/", "_"))
 
 
-HARNESSES = [_h("crypto/dpop"), _h("vdr/resolver"), _h("vcr/revocation"), _h("network/dag/tree"), _h("zzverif/c19bb"), _h("auth/api/iam"), _h("vdr/didnuts"), _h("network/transport/v2"), _h("vcr/verifier"), _h("auth/client/iam")]
+HARNESSES = [_h("crypto/dpop"), _h("vdr/resolver"), _h("vcr/revocation"), _h("network/dag/tree"), _h("zzverif/c19bb"), _h("auth/api/iam"), _h("vdr/didnuts"), _h("network/transport/v2"), _h("vcr/verifier"), _h("auth/client/iam"), _h("discovery"), _h("http/client")]
 
 # entry points whose code is inside a Lean model (everything else is sampled only)
 MODELLED = {
@@ -47,7 +47,7 @@ REQUIRED = [
     "iblt_bucket_indices_total", "iblt_bucket_indices_exact", "iblt_insert_delete_total", "iblt_decode_terminates", "iblt_decode_fuel_irrelevant", "iblt_decode_total",
     "iblt_handle_set_total", "iblt_zero_buckets_never_divide", "murmur_chain_short_cycles", "iblt_unbounded_chain_hangs",
     "iblt_small_table_hangs_unfixed", "callback_total_in_handler", "callback_empty_envelope_needs_guard", "statuslist_total", "statuslist_guards_needed", "didkey_total", "callback_standalone_partial", "panic_sites_accounted",
-    "model_panics_only_at_listed_sites", "fact_cfg_is_fixed", "fact_constants", "iblt_decode_pass_bound", "dpop_parse_ok_claims_are_strings",
+    "model_panics_only_at_listed_sites", "fact_cfg_is_fixed", "fact_constants", "fact_http_clients_have_timeout", "iblt_decode_pass_bound", "dpop_parse_ok_claims_are_strings",
 ]
 
 
@@ -97,7 +97,7 @@ def run(ctx):
         pkg, files, name = h
         c = ctx.go_test_binary(pkg, files, name)
         return h, c, (None if c else getattr(ctx, "harness_error", ""))
-    with cf.ThreadPoolExecutor(10) as ex:
+    with cf.ThreadPoolExecutor(12) as ex:
         built = list(ex.map(build, HARNESSES))
     bins = []
     for (pkg, files, name), b, err in built:
@@ -119,7 +119,7 @@ def run(ctx):
             e["VERIF_ORBIT"] = "full" if ctx.thorough else "sample"
         rc, log, out = ctx.run_harness(binary, "TestVerifC19", e, outdir=out, timeout=3000)
         return pkg, name, rc, log, out
-    with cf.ThreadPoolExecutor(10) as ex:
+    with cf.ThreadPoolExecutor(12) as ex:
         runs = list(ex.map(runh, bins))
 
     seen_sig = set()
